@@ -215,6 +215,43 @@ func runC20(c *Check) {
 			}
 		}
 	}
+	// R11: a fetched height is left only when every one of its transactions is accounted for. From
+	// inside the loop over the height's transactions the cursor increment is reached only through
+	// the loop's own end (every transaction was appended) or through the push of the remainder:
+	// leaving the loop early and moving on drops the transactions that were not looked at.
+	{
+		c.Doc("C20-R11", "EO: from the body of the loop over a fetched height's transactions, every path to an increment of the scan cursor passes the loop's own exhaustion edge or the push of the remainder to the carry-over queue (an early exit that moves the cursor drops the rest of the height for good).")
+		var apps []*Node
+		for _, an := range g.Select(func(n *Node) bool { return CallName(n) == "append" }) {
+			e := ArgTerm(an, 1)
+			if e != nil && p.DeepContains(e, func(t *Term) bool {
+				return t.Op == "index" && strings.HasSuffix(t.Args[0].String(), ".Data") && strings.Contains(t.Args[0].String(), "RetrieveWithHelpers(")
+			}, 2) {
+				apps = append(apps, an)
+			}
+		}
+		if len(apps) == 0 {
+			c.Unk("C20-R11", "GetNextBatch ⟂ height-fully-accounted-for", fn, "", "anchor lost: no append of a fetched transaction to the batch")
+		} else {
+			ab, actx := apps[0].In.Block(), apps[0].Ctx
+			hb := loopHeaderOf(ab)
+			var ifi *ssa.If
+			if hb != nil {
+				ifi, _ = hb.Instrs[len(hb.Instrs)-1].(*ssa.If)
+			}
+			if ifi == nil {
+				c.Unk("C20-R11", "GetNextBatch ⟂ height-fully-accounted-for", fn, p.InstrPos(apps[0].In), "the loop over the fetched transactions has no bound test at its head")
+			} else {
+				body := g.Select(func(n *Node) bool { return n.Kind == NTrue && n.In == ssa.Instruction(ifi) && n.Ctx == actx })
+				done := g.Select(func(n *Node) bool { return n.Kind == NFalse && n.In == ssa.Instruction(ifi) && n.Ctx == actx })
+				c.Decide("C20-R11", "GetNextBatch ⟂ height-fully-accounted-for", fn, p.InstrPos(ifi),
+					"the cursor moves past a fetched height only after the loop over its transactions ran to its end or the remainder was queued",
+					"the loop over a fetched height's transactions can be left early and the scan cursor still moves past the height without the remainder being queued: the transactions not yet looked at are neither released nor kept, and the persisted scan position is already behind them", g,
+					g.PathAvoiding(body, nodeSet(loopIncs), orPred(nodeSet(done), nodeSet(pushes))))
+			}
+		}
+		c.MinInstances("C20-R11", 1)
+	}
 	// R7: once the scan moved (cursor increment) or a remainder was queued durably, every return
 	// passes the write of the cursor: the scan position and the carry-over queue stay in step on
 	// disk, whatever the batch returned (including an empty one)
